@@ -350,6 +350,62 @@ pub fn case(rng: &mut Rng, max_objects: usize) -> String {
         Err(e) => format!("{{\"panic_wrapper\":{},{}", esc(&panic_msg(e)), &body[1..]),
     };
 
+    // a Difficulty that already carries passed_objects(k): whatever the calculator announces, it
+    // yields that many values, len counts down, and value i is the one-shot passed_objects(i)
+    let body = if rng.chance(1, 2) {
+        let k = match rng.below(4) {
+            0 => 0,
+            1 => rng.below(4),
+            2 => total + rng.below(3),
+            _ => rng.below(total + 1),
+        } as u32;
+        let d2 = d.clone().passed_objects(k);
+        let res = catch_unwind(AssertUnwindSafe(|| {
+            let mut g = rosu_pp::GradualDifficulty::new_with_mode(d2.clone(), &map, mode_of(target)).ok()?;
+            let len0 = checked_len(&g);
+            let mut n = 0u64;
+            let mut bad_len = None;
+            let mut bad_val = None;
+            while let Some(a) = g.next() {
+                n += 1;
+                let want = match target {
+                    0 => oneshot::<Osu>(&d2, Some(n as u32), &map).json(),
+                    1 => oneshot::<Taiko>(&d2, Some(n as u32), &map).json(),
+                    2 => oneshot::<Catch>(&d2, Some(n as u32), &map).json(),
+                    _ => oneshot::<Mania>(&d2, Some(n as u32), &map).json(),
+                };
+                let got = match a {
+                    rosu_pp::any::DifficultyAttributes::Osu(v) => v.json(),
+                    rosu_pp::any::DifficultyAttributes::Taiko(v) => v.json(),
+                    rosu_pp::any::DifficultyAttributes::Catch(v) => v.json(),
+                    rosu_pp::any::DifficultyAttributes::Mania(v) => v.json(),
+                };
+                if got != want && bad_val.is_none() {
+                    bad_val = Some(n);
+                }
+                if checked_len(&g) + n != len0 && bad_len.is_none() {
+                    bad_len = Some(n);
+                }
+                if n > total + 8 {
+                    break;
+                }
+            }
+            let after = g.next().is_none() && g.nth(0).is_none();
+            Some(format!(
+                "{{\"k\":{k},\"len0\":{len0},\"n\":{n},\"bad_len\":{},\"bad_val\":{},\"after_none\":{after}}}",
+                bad_len.map_or("null".to_string(), |x| x.to_string()),
+                bad_val.map_or("null".to_string(), |x| x.to_string())
+            ))
+        }));
+        match res {
+            Ok(Some(p)) => format!("{{\"preset\":{p},{}", &body[1..]),
+            Ok(None) => body,
+            Err(e) => format!("{{\"preset\":{{\"k\":{k},\"panic\":{}}},{}", esc(&panic_msg(e)), &body[1..]),
+        }
+    } else {
+        body
+    };
+
     format!(
         "{{\"mode\":{target},\"src_mode\":{src_mode},\"shape\":{},\"n_objects\":{},\"clock_rate\":{},\"settings\":{},\"view\":{},\"map\":{},{}",
         esc(gm.shape),
